@@ -1,6 +1,8 @@
 package fssim
 
 import (
+	"compress/flate"
+	"hash/crc32"
 	"archive/zip"
 	"bytes"
 	"compress/gzip"
@@ -111,6 +113,24 @@ func prepareRegistry(p *FSPlan, e *fsEnv, newData []byte) (*updater.ResourceRegi
 			if name[len(name)-1] != '/' {
 				_, _ = w.Write(append([]byte(fmt.Sprintf("entry %d ", i)), newData...))
 			}
+		}
+		if p.corruptArchive {
+			// one more entry whose deflate stream ends half way although the header announces all of it
+			full := make([]byte, 200000)
+			for i := range full {
+				full[i] = byte('a' + (i*7+i/13)%26)
+			}
+			var comp bytes.Buffer
+			fw, _ := flate.NewWriter(&comp, flate.DefaultCompression)
+			_, _ = fw.Write(full)
+			_ = fw.Close()
+			cut := comp.Bytes()[:comp.Len()/2]
+			raw, err := zw.CreateRaw(&zip.FileHeader{Name: "dir/cut.bin", Method: zip.Deflate, CRC32: crc32.ChecksumIEEE(full),
+				CompressedSize64: uint64(len(cut)), UncompressedSize64: uint64(len(full))})
+			if err != nil {
+				return nil, nil, err
+			}
+			_, _ = raw.Write(cut)
 		}
 		_ = zw.Close()
 		_ = f.Close()
